@@ -2113,6 +2113,11 @@ func (c *BytecodeCompiler) compileContinueExpressionNode(node *ast.ContinueExpre
 		return
 	}
 
+	if c.additionalAbortChecks {
+		// `continue` jumps over the abort check at the end of the loop body
+		c.emit(location.StartPos.Line, bytecode.CHECK_ABORT)
+	}
+
 	if !loop.returnsValueFromLastIteration {
 		if node.Value != nil {
 			c.compileNode(node.Value, false)
